@@ -392,7 +392,7 @@ class ProgGen(object):
     def __init__(self, rng, max_stmts=25, max_depth=3, params=(), calls=(), self_cls=None, derived=(),
                  allow_delete=True, allow_mutation=True, enums=(), consts=(), var_prefix='', schema=None,
                  ret_ty='any', rec_call=None, derived_attr=None, create_in_loops=True, max_call_sites=99,
-                 big_ints=0.05, derived_chain=None, derived_nav=False):
+                 big_ints=0.05, derived_chain=None, derived_nav=False, neg_mod=0.0, zero_div=0.0):
         self.rng = rng
         schema = schema or DEFAULT_SCHEMA
         self.classes = schema['classes']          # {class: [(attr, ty, referential)]}
@@ -408,6 +408,8 @@ class ProgGen(object):
         self.big_ints = big_ints                  # probability of a literal beyond 2**53 where an integer literal is generated
         self.derived_chain = derived_chain        # (attribute, helper operation or None): read it on ANOTHER instance
         self.derived_nav = derived_nav            # the derivation reads the instances related to self
+        self.neg_mod = neg_mod                    # probability that a `%` gets an arbitrary (possibly negative) dividend and a divisor of either sign
+        self.zero_div = zero_div                  # probability that the divisor of a `/` or `%` is zero (the program then ends in an error)
         self.self_rels = schema.get('rels', [])   # [(rel, source class, target class)]: simple associations usable with the NAME self
         self.self_deleted = False
         self.budget = max_stmts
@@ -608,15 +610,36 @@ class ProgGen(object):
             den = ['int', r.choice([1, 2, 3, 4, 5, 7, -1, -2, -3, -4])]
             if r.random() < self.big_ints:
                 den = ['int', r.choice([2 ** 53 + 1, -(2 ** 53 + 3), 3 ** 20])]
+            if self.zero_div and r.random() < self.zero_div:
+                den = self._zero(extra)
             return ['bin', '/', num, den]
         if c < 0.5:
-            # % stays on the non-negative domain: (e * e) % positive literal
+            if self.neg_mod and r.random() < self.neg_mod:
+                # the remainder with operands of either sign: its sign follows the dividend (the remainder of the
+                # truncating division); operands beyond 2**53 exercise exactness
+                num = self._int(depth - 1, False, extra)
+                if r.random() < 0.4:
+                    num = ['un', '-', num]
+                den = ['int', r.choice([2, 3, 5, 7, -2, -3, -5, -7, 1, -1])]
+                if r.random() < self.big_ints:
+                    den = ['int', r.choice([2 ** 53 + 1, -(2 ** 53 + 3), 3 ** 20])]
+                if self.zero_div and r.random() < self.zero_div:
+                    den = self._zero(extra)
+                return ['bin', '%', num, den]
+            # elsewhere % stays on the non-negative domain: (e * e) % positive literal
             x = self._int(depth - 1, True, extra)
             return ['bin', '%', ['bin', '*', x, x], ['int', r.choice([1, 2, 3, 5, 7])]]
         op = r.choice(['+', '+', '-', '-', '*'])
         if op == '*' and self.tight_int():
             return ['bin', op, self._int(depth - 1, False, extra), ['int', r.choice([2, 3, -1, -2, 0, 5])]]
         return ['bin', op, self._int(depth - 1, False, extra), self._int(depth - 1, False, extra)]
+
+    def _zero(self, extra):
+        """a divisor that is zero: the literal, or `x - x` for an integer leaf"""
+        if self.rng.random() < 0.5:
+            return ['int', 0]
+        x = self._int(0, True, extra)
+        return ['bin', '-', x, x]
 
     def _str(self, depth, leaf, extra):
         r = self.rng
